@@ -363,6 +363,38 @@ def part_fault_enum(ctx):
     return p
 
 
+
+def part_services_fault(ctx):
+    """the prune service's own transaction handling under a storage fault on its SECOND run"""
+    p = Part("service-faults")
+    d = os.path.join(ctx["work"], "svcfault")
+    rc, out = harness(["services-fault", "-out", d], timeout=600)
+    if rc != 0:
+        p.violation("harness-failed", "service fault runs failed: " + out[-1500:], dict(log=out[-3000:]), found_input=False)
+        return p
+    res = json.load(open(os.path.join(d, "svcfault.json")))["results"]
+    p.evaluations = len(res)
+    p.traces = len(res)
+    p.nontrivial = sum(1 for r in res if r["fault_reached"])
+    p.samples = res[:2]
+    p.info = dict(skipped=[r["skip"] for r in res if r.get("skip")])
+    seen = set()
+    for r in res:
+        if r.get("skip") or not r["fault_reached"]:
+            continue
+        probs = []
+        if not r["unchanged"]:
+            probs.append(("partial-effect:service-prune-deleted-topics", "tables changed although the run failed: " + r.get("diff", "")))
+        if not r["next_run_prunes"]:
+            probs.append(("retry-failed:service-prune-deleted-topics", "the next, unfaulted run did not prune the topic and its snapshot"))
+        for key, what in probs:
+            if key in seen:
+                continue
+            seen.add(key)
+            p.violation(key, "prune-deleted-topics service, second run (after a successful first run), statement %d/%d (%s) failing: %s" %
+                        (r["k"], r["of"], r["call"], what), dict(kind="service-fault", result=r))
+    return p
+
 def part_c16(ctx):
     p = Part("boundary-requests")
     d = os.path.join(ctx["work"], "c16")
@@ -830,8 +862,9 @@ def claim_c04(kind, mm):
 
 def claim_c06(kind, mm):
     k = kind.split(":")[0]
-    return (k in ("Pull", "StreamAckNack") or kind == "Job:DeadLetterSweep") and \
-        ("MDels" in mm or "delivery" in mm or "illegal-choice" in mm or "MResp" in mm)
+    return ((k in ("Pull", "StreamAckNack") or kind == "Job:DeadLetterSweep") and
+            ("MDels" in mm or "delivery" in mm or "illegal-choice" in mm or "MResp" in mm)) or \
+        ("s.dead_letter" in mm and k not in ("CreateSub", "UpdateSub"))   # a step that has no business with the policy rewrote it
 
 
 def claim_c14(kind, mm):
@@ -930,8 +963,8 @@ CHECKS = {
         assumptions=BUS_ASSUME + ["history theorem under the environment hypotheses of Bus/T_C05.v (quiet, disciplined H1-H6)"]),
     "C09": dict(
         props=["C09"],
-        parts=[part_fault_enum],
-        rule="for each of 26 mutating operations in a prepared non-trivial state, the k-th driver call (BEGIN/exec/query/COMMIT) is failed (error or context-cancellation error), "
+        parts=[part_fault_enum, part_services_fault],
+        rule="[+ service part: the prune-deleted-topics service (one long-lived action object) is held before its SECOND run, a topic with a left-over snapshot is aged past the threshold and each of the run's 5 driver calls is failed in turn: tables unchanged, the next run prunes] for each of 26 mutating operations in a prepared non-trivial state, the k-th driver call (BEGIN/exec/query/COMMIT) is failed (error or context-cancellation error), "
              "every k in both tiers (215 positions); checks: error reported, five-table dump identical, no publish waiter woken, retry succeeds and matches the model; "
              "non-trivial = distinct (operation, position) pairs at which the fault fired",
         trusted=["the database's own atomicity under failure (ROLLBACK restores the snapshot) is assumed; the driver wrapper injects failures before the statement runs"],
